@@ -3,6 +3,7 @@ package props
 import (
 	"encoding/json"
 	"fmt"
+	"reflect"
 	"sort"
 	"strings"
 	"testing"
@@ -273,7 +274,7 @@ func TestC07(t *testing.T) {
 		}
 	}
 	{
-		share := uint64(stats.Scale(2, 1))
+		share := uint64(stats.Scale(4, 1))
 		if v := getenv("VERIF_C07_ORDER_SHARE"); v != "" {
 			share = 1
 		}
@@ -303,20 +304,28 @@ func TestC07(t *testing.T) {
 			}
 		}
 		gen.OIDFamilyMode = !stats.Thorough()
-		sweepSelect = func(der []byte) bool { return (stats.Hash(der)+verifSeed())%share == 0 }
-		defer func() { sweepSelect = nil }()
+		// every mutant is linted once, in the registry's order. The reverse-order run follows when that run left
+		// the parsed object different from a freshly parsed twin (a lint wrote into it: whoever reads that field
+		// later sees another certificate - the way one lint's verdict comes to depend on which others ran), and for
+		// a fixed share of all mutants besides (state kept anywhere else).
 		sweepBases(rec, bases, nil, false, "c07-order", func(ec engine.Case, run *engine.Run) (string, string) {
 			if !run.Parsed {
 				return "", ""
 			}
 			rec.Class("order_sweep")
-			if run.Panic != "" || run.Hang {
+			if run.Panic != "" || run.Hang || run.Cert == nil {
 				return "", ""
 			}
+			written := diffExported(reflect.ValueOf(run.Cert), reflect.ValueOf(parseOnly(ec.Kind, ec.DER)), string(ec.Kind), 0) != ""
+			if written {
+				rec.Class("order_sweep_object_written")
+			} else if (stats.Hash(ec.DER)+verifSeed())%share != 0 {
+				return "", ""
+			}
+			rec.Class("order_sweep_reversed")
 			return judgeOrderAfter(rec, ec, run.Reg, run.RS)
 		}, func(s string) { t.Fatalf("%s", s) })
 		gen.OIDFamilyMode = false
-		sweepSelect = nil
 	}
 	// long echoes: many lints quote the value they object to. Certificates whose common name and dNSName are a few
 	// bytes either side of 2^k bytes long, with a multi-byte character walking across the boundary, make those details
